@@ -86,6 +86,25 @@ def mutants_of(path):
                 add(fn, child, pos(child), pos(child, True), "pass", "statement `%s` dropped" % ast.unparse(child)[:60])
             if fn and isinstance(child, ast.If) and not child.orelse and isinstance(child.test, ast.expr):
                 add(fn, child, pos(child.test), pos(child.test, True), "False", "condition `%s` -> False" % ast.unparse(child.test)[:60])
+            if fn and isinstance(child, ast.Call) and isinstance(child.func, ast.Name) and child.func.id in ("min", "max"):
+                other = "max" if child.func.id == "min" else "min"
+                add(fn, child, pos(child.func), pos(child.func, True), other, "%s -> %s" % (child.func.id, other))
+            if fn and isinstance(child, ast.Attribute) and child.attr in ("start", "end") and isinstance(child.ctx, ast.Load):
+                other = "end" if child.attr == "start" else "start"
+                z = pos(child, True)
+                add(fn, child, z - len(child.attr), z, other, ".%s -> .%s" % (child.attr, other))
+            if fn and isinstance(child, ast.Attribute) and child.attr in ("minTimestamp", "maxTimestamp") and isinstance(child.ctx, ast.Load):
+                other = "maxTimestamp" if child.attr == "minTimestamp" else "minTimestamp"
+                z = pos(child, True)
+                add(fn, child, z - len(child.attr), z, other, ".%s -> .%s" % (child.attr, other))
+            if fn and isinstance(child, ast.Call) and len(child.args) == 2 and not child.keywords and all(isinstance(a, ast.Name) for a in child.args) and child.args[0].id != child.args[1].id and child.lineno == child.end_lineno:
+                a0, a1 = child.args
+                add(fn, child, pos(a0), pos(a1, True), "%s, %s" % (a1.id, a0.id), "arguments (%s, %s) swapped" % (a0.id, a1.id))
+            if fn and isinstance(child, ast.AugAssign) and isinstance(child.op, (ast.Add, ast.Sub)):
+                txt = "+=" if isinstance(child.op, ast.Add) else "-="
+                p_ = between(pos(child.target, True), pos(child.value), txt)
+                if p_ is not None:
+                    add(fn, child, p_, p_ + 2, "-=" if txt == "+=" else "+=", "%s -> %s" % (txt, "-=" if txt == "+=" else "+="))
             if fn and isinstance(child, ast.Subscript) and isinstance(child.slice, ast.UnaryOp) and isinstance(child.slice.op, ast.USub) and isinstance(child.slice.operand, ast.Constant) and child.slice.operand.value == 1:
                 add(fn, child, pos(child.slice), pos(child.slice, True), "0", "[-1] -> [0]")
             visit(child, name if isinstance(child, (ast.FunctionDef, ast.ClassDef)) else fn)
@@ -117,8 +136,17 @@ def make_workers(n, tmp):
     return roots
 
 
-def gen(out_path, per_function=12, seed=1):
+SKIP_FUNCS = ("_extractPIPiecewise", "_extractPIFile", "extractIntensity", "extractPitchTier", "extractPitch", "extractPI", "generatePIMeasures",
+              "spellCheckEntries", "splitTierEntries", "wavToKlattgrid", "runPraatScript", "resynthesize", "makeDir", "_KlattBaseTier.__eq__")
+
+
+def gen(out_path, per_function=12, seed=1, exclude=None):
     rng = random.Random(seed)
+    done = set()
+    if exclude:
+        for pth in exclude.split(","):
+            for m in json.load(open(pth)):
+                done.add((m["file"], m["start"], m["end"], m["new"]))
     allm, blobs = [], {}
     for f in FILES:
         if not os.path.exists(os.path.join(REPO, f)):
@@ -129,7 +157,7 @@ def gen(out_path, per_function=12, seed=1):
         seen = set()
         for m in ms:
             k = (m["start"], m["end"], m["new"])
-            if k in seen:
+            if k in seen or (m["file"],) + k in done or m["function"] in SKIP_FUNCS:
                 continue
             seen.add(k)
             byfn[m["function"]].append(m)
@@ -175,6 +203,7 @@ def gen(out_path, per_function=12, seed=1):
     surv = [m for m in res if m["survives"]]
     print("%d of %d survive the test suite" % (len(surv), len(res)))
     json.dump(surv, open(out_path, "w"), indent=1)
+    json.dump(res, open(out_path + ".all", "w"), indent=1)
 
 
 def callgraph():
@@ -288,7 +317,7 @@ def show(path):
 
 if __name__ == "__main__":
     if sys.argv[1] == "gen":
-        gen(sys.argv[2], int(sys.argv[3]) if len(sys.argv) > 3 else 12)
+        gen(sys.argv[2], int(sys.argv[3]) if len(sys.argv) > 3 else 12, int(sys.argv[4]) if len(sys.argv) > 4 else 1, sys.argv[5] if len(sys.argv) > 5 else None)
     elif sys.argv[1] == "run":
         run(sys.argv[2], sys.argv[3])
     elif sys.argv[1] == "show":
